@@ -22,7 +22,7 @@ func init() {
 		ID:    "C12",
 		Level: "exploration",
 		Rule: "case = one RFC 4180 document serialised from a model (random quoting style, LF/CRLF, final line break or not, delimiter, cell classes: ints, floats, bools, empty, text needing quotes, doubled quotes at field start/end, fields straddling 1 KiB and its doublings) " +
-			"plus a configuration (EmptyNull, IgnoreEmptyLines, Headers, Types/EnumValues, RenameDuplicateColumns, MissingColumnNameAlias, RowCountHint), read under many schedules: whole, one byte at a time, EVERY single split point and (documents <= 96 bytes) EVERY pair of split points, " +
+			"plus a configuration (EmptyNull, IgnoreEmptyLines, Headers, Types/EnumValues, RenameDuplicateColumns, MissingColumnNameAlias, RowCountHint), read under many schedules: whole, one byte at a time, EVERY single split point, (documents <= 96 bytes) EVERY pair of split points and (thorough, documents <= 32 bytes) EVERY triple, " +
 			"splits at +-1 around every quote/delimiter/CR/LF and around offsets 1024/2049/4099 for long documents, random chunk sizes, EOF delivered with or after the last data; evaluation = one ReadCSV call compared with the denoted header/types/cells; " +
 			"non-trivial = document with a quoted field containing a quote, delimiter or line break read under a schedule that splits inside it; distinct by (document, configuration, schedule)",
 		Assumptions: []string{
@@ -507,6 +507,15 @@ func (d *csvDoc) schedules(rng *rand.Rand, thorough bool) ([]schedule, bool, boo
 		for i := 1; i < n; i++ {
 			for j := i + 1; j < n; j++ {
 				ss = append(ss, schedule{"split2", []int{i, j}, (i+j)%3 == 0})
+			}
+		}
+	}
+	if thorough && n <= 32 {
+		for i := 1; i < n; i++ {
+			for j := i + 1; j < n; j++ {
+				for k := j + 1; k < n; k++ {
+					ss = append(ss, schedule{"split3", []int{i, j, k}, (i+j+k)%3 == 0})
+				}
 			}
 		}
 	}
